@@ -65,3 +65,29 @@ Theorem c03_cursor_invariant_kept_by_a_propagation :
     EvLedger.res_fail (flush beh q w) <> Some (FPanic 8) -> ReserveInv (WorldFrame.res_world (flush beh q w)).
 Proof. exact flush_RI. Qed.
 Print Assumptions c03_cursor_invariant_kept_by_a_propagation.
+
+(* "The id of a despawned entity never becomes valid again, even when its storage slot is recycled up to the generation
+   limit" - at world level: removing the entity stored at a row makes its id dead (generation bumped past it, or the slot
+   retired) ... *)
+Require Import EV.Base EV.DeadIds EV.DeadEnts.
+Theorem c03_removing_an_entity_makes_its_id_dead :
+  forall (w : world) (ai row : N) (a : arch) (e : key) (vals : list Query.cval),
+    SmInv (w_ents w) -> slab_get (w_archs w) ai = Some a -> nget (a_rows a) row = Some (e, vals) ->
+    match remove_entity w (ai, row) with ROk _ w' => SmInv (w_ents w') /\ Dead (w_ents w') e | RFail _ _ => True end.
+Proof. exact remove_entity_dead. Qed.
+Print Assumptions c03_removing_an_entity_makes_its_id_dead.
+
+(* ... and a dead id stays dead - is invalid - through every propagation, every handler behaviour and every later call,
+   spawns that recycle the slot included.  No other invariant of the world is needed. *)
+Theorem c03_a_dead_entity_id_is_never_valid_again :
+  forall (beh : hinfo -> logent -> N -> script) (k : key) (w : world) (ops : list top_all),
+    SmInv (w_ents w) -> Dead (w_ents w) k -> N.odd (snd k) = true ->
+    sm_get k (w_ents (fold_left (run_top_all beh) ops w)) = None.
+Proof. exact despawned_entity_id_never_valid_again. Qed.
+Print Assumptions c03_a_dead_entity_id_is_never_valid_again.
+
+Theorem c03_a_dead_entity_id_stays_dead_through_a_propagation :
+  forall (k : key) (beh : hinfo -> logent -> N -> script) (q : list qitem) (w : world),
+    PE k w -> PE k (WorldFrame.res_world (flush beh q w)).
+Proof. exact flush_PE. Qed.
+Print Assumptions c03_a_dead_entity_id_stays_dead_through_a_propagation.
